@@ -47,7 +47,7 @@ func init() {
 	register("C09", "P-dec", nil, rule{name: "P-dec", run: rulePDec}, rule{name: "ACC", run: ruleACC}, rule{name: "L-fresh", run: ruleLFresh})
 	register("C14", "P-insp", nil, rule{name: "P-insp", run: rulePInsp}, rule{name: "T-tmpl", run: ruleTTmplScripts})
 	register("C16", "P-json", nil, rule{name: "P-json", run: rulePJSON}, rule{name: "FLOAT", run: ruleFloat}, rule{name: "T-dto", run: ruleTDto}, rule{name: "T-dto", run: ruleTDtoOnce}, rule{name: "L-fresh", run: ruleLFresh})
-	register("C13", "T-push T-nm", nil, rule{name: "P-codec", run: rulePCodec}, rule{name: "T-push", run: ruleTPush}, rule{name: "T-nm", run: ruleTNm}, rule{name: "T-op1", run: ruleTOp}, rule{name: "ACC-parse", run: ruleACCParse}, rule{name: "T-asm", run: ruleTAsm})
+	register("C13", "T-push T-nm", nil, rule{name: "P-codec", run: rulePCodec}, rule{name: "T-push", run: ruleTPush}, rule{name: "T-nm", run: ruleTNm}, rule{name: "T-op1", run: ruleTOp}, rule{name: "ACC-parse", run: ruleACCParse}, rule{name: "T-asm", run: ruleTAsm}, rule{name: "S-canon", run: ruleSCanon})
 	register("C01", "W-tx T-vi ACC", nil, rule{name: "W-tx", run: ruleWTx}, rule{name: "W-rd", run: ruleWRd}, rule{name: "T-vi", run: ruleTVi}, rule{name: "ACC", run: ruleACC})
 	register("C17", "T-fmt S-disp", nil, rule{name: "T-fmt", run: ruleTFmt}, rule{name: "S-disp", run: ruleSDisp})
 	register("C15", "S-chk T-ver", nil, rule{name: "S-chk", run: ruleSChk}, rule{name: "T-ver", run: ruleTVer}, rule{name: "T-tmpl", run: func(c *Ctx) { ruleTTmplOnly(c, map[string]bool{"IsP2PKH": true}) }}, rule{name: "S-carry", run: ruleSCarry}, rule{name: "W-addr", run: ruleWAddr})
@@ -57,7 +57,7 @@ func init() {
 		ruleTTmplOnly(c, map[string]bool{"IsData": true, "IsP2PKH": true, "IsP2PKHInscription": true})
 	}})
 	register("C10", "G-chg S-chg O-pure G-sum G-size T-vi", nil, rule{name: "G-chg", run: ruleGChg}, rule{name: "S-chg", run: ruleSChgWrappers}, rule{name: "G-sum", run: ruleGSum}, rule{name: "G-size", run: ruleGSize}, rule{name: "P-est", run: rulePEst}, rule{name: "T-vi", run: func(c *Ctx) { ruleTViOnly(c, map[string]bool{"Length": true, "UpperLimitInc": true}) }})
-	register("C06", "T-enc G-legacy S-sub S-enc S-false S-nullf", nil, rule{name: "T-enc", run: ruleTEnc}, rule{name: "G-legacy", run: ruleGLegacy}, rule{name: "S-sub", run: ruleSSub}, rule{name: "S-enc", run: ruleSEncOrder}, rule{name: "S-multi", run: ruleSMulti}, rule{name: "S-reset", run: ruleSReset}, rule{name: "G-clone", run: ruleGClone})
+	register("C06", "T-enc G-legacy S-sub S-enc S-false S-nullf", nil, rule{name: "T-enc", run: ruleTEnc}, rule{name: "G-legacy", run: ruleGLegacy}, rule{name: "S-sub", run: ruleSSub}, rule{name: "S-enc", run: ruleSEncOrder}, rule{name: "S-multi", run: ruleSMulti}, rule{name: "S-reset", run: ruleSReset}, rule{name: "G-clone", run: ruleGClone}, rule{name: "S-canon", run: ruleSCanon})
 	register("C04", "S-flag W-unlock S-fill S-digest S-apply T-shf", nil, rule{name: "S-flag", run: ruleSFlag}, rule{name: "S-digest", run: ruleSDigest}, rule{name: "S-apply", run: ruleSApply}, rule{name: "T-shf", run: ruleTShf}, rule{name: "S-sub", run: ruleSSub}, rule{name: "T-enc", run: ruleTEnc}, rule{name: "G-clone", run: ruleGClone},
 		// "commit to exactly what their hash type says under the digest algorithm in force": the two digest
 		// algorithms themselves (decided as for C02 / C03)
